@@ -2,8 +2,8 @@
    two-objective cones with two facets; the pessimistic Pareto set
    is exactly the set of active designs that no other active design pessimistically dominates. *)
 From Coq Require Import QArith List Bool.
-From VOPy Require Import QVec Cone Rect Pessimistic PessProofs PessComplete Spec Invariants AlgoRefine.
-From VOPyGen Require Import Gen_algos.
+From VOPy Require Import QVec Cone Rect Pessimistic PessProofs PessComplete PessRefine Spec Invariants AlgoRefine.
+From VOPyGen Require Import Gen_algos Gen_pess.
 Import ListNotations.
 Open Scope Q_scope.
 
@@ -36,3 +36,20 @@ Theorem C11_check_dominates_complete_2x2 : forall a b c d (r1 r2 : box),
   pess_dominates (W2 a b c d) r1 r2 -> Pessimistic.check_dominates (W2 a b c d) r1 r2 = true.
 Proof. exact check_dominates_complete_2x2. Qed.
 Print Assumptions C11_check_dominates_complete_2x2.
+
+(* the three functions REGENERATED literally from the source (line_seg_pt_intersect_at_dim, is_pt_in_extended_polytope,
+   RectangularConfidenceRegion.check_dominates: Gen_pess.v) decide exactly what the model decides — the unguarded division
+   of the source on degenerate edges changes nothing, because such an edge can only "hit" when a vertex already does *)
+Theorem C11_regenerated_check_dominates_is_the_model : forall W r1 r2,
+  gen_check_dominates W r1 r2 = Pessimistic.check_dominates W r1 r2.
+Proof. exact gen_check_dominates_is_model. Qed.
+Print Assumptions C11_regenerated_check_dominates_is_the_model.
+
+(* hence the regenerated test is sound for every cone, and complete for invertible 2x2 cones *)
+Theorem C11_regenerated_check_dominates_sound : forall W r1 r2,
+  wf_box r1 -> wf_box r2 -> length r1 = length r2 ->
+  (forall w, In w W -> length w = length r1) ->
+  gen_check_dominates W r1 r2 = true ->
+  forall z, inbox r1 z -> exists z', inbox r2 z' /\ dominates W z z' = true.
+Proof. intros W r1 r2 H1 H2 H3 H4 H5. rewrite gen_check_dominates_is_model in H5. exact (check_dominates_sound W r1 r2 H1 H2 H3 H4 H5). Qed.
+Print Assumptions C11_regenerated_check_dominates_sound.
